@@ -32,6 +32,10 @@ PATTERNS = [
     r"celeritas::(from_spherical|make_unit_vector|norm)$",
     r"celeritas::(IsotropicDistribution|UniformBoxDistribution|UniformRealDistribution)::",
     r"celeritas::SurfaceClipper::operator\(\)",
+    r"celeritas::Interpolator::(Interpolator|operator\(\))$",
+    r"celeritas::detail::InterpolatorTraits::",
+    # C12.7-ray-consistency: sense function / ray equation / gradient of the quadric surfaces
+    r"celeritas::(PlaneAligned|Plane|SphereCentered|Sphere|CylCentered|CylAligned|ConeAligned|SimpleQuadric|GeneralQuadric)::calc_(sense|intersections|normal)$",
 ]
 
 
